@@ -26,7 +26,7 @@ PY
 }
 scan() {
   if [ "${CHECK:-0}" = "1" ]; then
-    (cd $MUT && RUSTC_WRAPPER= cargo check --offline -j3 --lib 2>&1 | grep -E "^error" -A6 | head -20 | sed 's/^/    cargo: /')
+    (cd $MUT && RUSTC_WRAPPER= cargo check --offline -j2 --lib 2>&1 | grep -E "^error" -A6 | head -20 | sed 's/^/    cargo: /')
   fi
   C20_SRC_ROOT=$MUT C20_ONLY=none $B C20 --seed 1 --n 0 --out $OUT >/dev/null 2>&1
   python3 - $OUT/oracle.json <<'PY'
